@@ -24,8 +24,17 @@ func poolCleanup()
 
 var poolFlushes int64
 
+// flushAtHandover is decided per run (2 in 3 runs): with it the race detector
+// sees almost every unordered access pair; without it objects really travel
+// through the pools from task to task, which is where a defect in the use of a
+// pool itself (double release, stale contents) becomes visible.
+var flushAtHandover = true
+
 //go:norace
 func flushPools() {
+	if !flushAtHandover {
+		return
+	}
 	poolCleanup()
 	poolCleanup()
 	poolFlushes++
@@ -371,6 +380,7 @@ func (s *Sched) Run(tasks []func()) {
 }
 
 func drawStrategy(pl *Stream, tier string, allowSerial bool) Strategy {
+	flushAtHandover = pl.Intn(3) != 0
 	k := pl.Intn(stKinds)
 	if k == stSerial && !allowSerial {
 		k = stRand
